@@ -72,6 +72,31 @@ def gen_cases(rng, tier, driver, corr, stats, families):
         emit("extend", k, n, ad, ct + b"\x00")
         emit("extend", k, n, ad + b"\x00", ct)
         emit("multibit", k, n, ad, bytes(x ^ rng.getrandbits(8) for x in ct))
+    if "AE" in families:
+        # one state object reused for several packets (documented use): every packet is a valid ciphertext made by the model under
+        # nonce N+i, lengths straddling the rate so that a partial-block position would be carried over if it were not reset
+        plan = []
+        for v, (klen, rate) in FAMILIES["AE"].items():
+            for lens in ([5, 3], [rate - 1, rate + 1, 1], [1, 0, 2 * rate + 3], [rate + 3, rate - 3]) + (() if tier == "quick" else ([0, 7, 0, 9], [3 * rate + 1, 2])):
+                k, n0 = rnd(rng, klen), rnd(rng, 12) + b"\xff\xff\xff" + bytes([rng.randrange(250, 256)])
+                pk = []
+                for i, L in enumerate(lens):
+                    ni = ((int.from_bytes(n0, "big") + i) % (1 << 128)).to_bytes(16, "big")
+                    pk.append((ni, rnd(rng, rng.choice([0, 3, rate])), rnd(rng, L)))
+                plan.append((v, rate, k, n0, pk))
+        cts2 = model_encrypt(driver, [("AE", v, k, ni, ad, pt) for (v, rate, k, n0, pk) in plan for (ni, ad, pt) in pk])
+        it = iter(cts2)
+        for (v, rate, k, n0, pk) in plan:
+            ses = ["AI 1 %s INIT %s %s" % (v, hx(n0), hx(k))]
+            for (ni, ad, pt) in pk:
+                ct = next(it)
+                body, tag = ct[:-16], ct[-16:]
+                ses.append("AI 1 START %s" % hx(ad))
+                ses += ["AI 1 DECB %s" % hx(c) for c in gen.split_data(body, gen.partition(rng, len(body), rate))]
+                ses.append("AI 1 DECF %s" % hx(tag))
+            ses.append("AI 1 FREE")
+            corr.session(ses, "AI-%s-DEC-packets" % v)
+            stats["kinds"]["multi-packet-valid"] = stats["kinds"].get("multi-packet-valid", 0) + 1
     for fam in families:                                       # total lengths 0..15
         for v, (klen, rate) in FAMILIES[fam].items():
             for L in range(16):
